@@ -67,6 +67,9 @@ def claimsFail (c : ClaimCfg) (claims : Json) (now : Int) : Bool :=
   strClaimFails c.mask.sub c.expected claims N.sub ||
   strClaimFails c.mask.aud c.expected claims N.aud
 
+/-- the bytes that are signed: the raw token text up to (not including) the second dot -/
+def signingInput (head payload : Bytes) : Bytes := head ++ [46] ++ payload
+
 /-- `jwt_verify_sig(jwt, head, head_len, sig_b64)`: `none` = no error written. Also returns the
 calls made into the primitives. `msg` is the raw token text up to the second dot. -/
 def verifySig (env : Env) (k : KeyItem) (alg : Alg) (msg sigB64 : Bytes) : Option Err × List CryptoCall :=
@@ -86,7 +89,8 @@ def verifySig (env : Env) (k : KeyItem) (alg : Alg) (msg sigB64 : Bytes) : Optio
       match uriDecode sigB64 with
       | none => (some .sigDecode, [])
       | some sig =>
-        (if env.cr.pkVerify env.prov k alg msg sig then none else some .sigFailed, [.pkVerify alg k])
+        if !env.prov.supports alg then (some .sigFailed, [])
+        else (if env.cr.pkVerify env.prov k alg msg sig then none else some .sigFailed, [.pkVerify alg k])
   | _ => (some .unknownAlg, [])
 
 /-- the user callback: sees the parsed headers/claims/alg and the config, returns a code, whatever
@@ -127,7 +131,7 @@ def judge (env : Env) (cl : ClaimCfg) (p : Parsed) (cfg : Config) : Exit × List
         else match cfg.key with
           | none => (.viaJwt .sigButNoKey, [])     -- unreachable: `configPost` refused
           | some k =>
-            match verifySig env k p.alg (p.head ++ [46] ++ p.payload) p.sig with
+            match verifySig env k p.alg (signingInput p.head p.payload) p.sig with
             | (some e, tr) => (.viaJwt e, tr)
             | (none, tr) => (.ok, tr)
 
